@@ -119,7 +119,8 @@ KINDS = ["num", "int", "str", "bool", "null", "arr:num", "arr:str", "arr:obj", "
 VARNAMES = ["v", "w", "acc", "x1", "tmp_2", "größe", "数"]
 MACRONAMES = ["m", "f1", "helper", "añadir"]
 REGEXES = ["a", "^a", "b$", "a.c", "[a-c]+", "(a)(b)?", "x|y", "[0-9]+", "(é)", "a*", "\\\\d+", "(", "[", "h(el+)o", "^$"]
-FORMATS = ["%Y-%m-%d", "%H:%M:%S", "%Y-%m-%dT%H:%M:%S", "%F %T", "%j", "%Y", "%d/%m/%Y %H:%M", "%%", "%Q", "%", "%Y-%m-%d %z"]
+FORMATS = ["%Y-%m-%d", "%H:%M:%S", "%Y-%m-%dT%H:%M:%S", "%F %T", "%j", "%Y", "%d/%m/%Y %H:%M", "%%", "%Q", "%", "%Y-%m-%d %z",
+           "%F %T%.3f", "%Y-%m-%d %H:%M:%S%.3f", "%T%.6f", "%F %T%.9f"]
 ENVNAMES = ["JAWK_VF_A", "JAWK_VF_E", "JAWK_VF_MISSING", "JAWK_VF_U"]
 
 
@@ -147,7 +148,8 @@ class Gen:
                 return ("lit", r.choice((10000, 9999, 2 ** 32, 2 ** 63, 2 ** 64 - 1, 18446744073709551615)))
             return ("lit", r.choice((0, 0, 1, 1, 2, 3, 4, 5, 7, 10)))
         if kind == "epoch":
-            return ("lit", r.choice((0, 86400, 1700000000, 951782400, 1234567890, 4000000000, -1, 1.5, 253402300800, 2 ** 62)))
+            return ("lit", r.choice((0, 86400, 1700000000, 951782400, 1234567890, 4000000000, -1, 1.5, 253402300800, 2 ** 62,
+                                     -86400, -1.5, -0.5, 0.25, -1234567890.125, 1700000000.875, -0.125, 59.5, -3600)))
         if kind == "str":
             if r.random() < self.nonascii:
                 return ("lit", r.choice(NONASCII))
